@@ -30,15 +30,19 @@ PROP = dict(
     ],
     jobs=dict(
         quick=[
-            job("contractcourt", "^TestVerifC13LogModel$", ["TestVerifC13LogModel"], 400, shards=4),
-            job("contractcourt", "^TestVerifC13Crash$", ["TestVerifC13Crash"], 40, shards=6,
-                flaky_is_violation=False),
+            job("contractcourt", "^TestVerifC13LogModel$", ["TestVerifC13LogModel"], 600, shards=4),
+            job("contractcourt", "^TestVerifC13Crash$", ["TestVerifC13Crash"], 50, shards=6,
+                flaky_is_violation=False, timeout=400),
+            job("contractcourt", "^TestVerifC13Repro", ["TestVerifC13ReproRestartInContractClosed",
+                "TestVerifC13ReproResolvedCheckpoint"], 1, shards=1, v=True),
         ],
         thorough=[
             job("contractcourt", "^TestVerifC13LogModel$", ["TestVerifC13LogModel"], 3000, shards=8,
                 env=dict(VERIF_C13_STEPS=80), timeout=900),
             job("contractcourt", "^TestVerifC13Crash$", ["TestVerifC13Crash"], 250, shards=8,
                 env=dict(VERIF_C13_PAIRS=12), timeout=900, flaky_is_violation=False),
+            job("contractcourt", "^TestVerifC13Repro", ["TestVerifC13ReproRestartInContractClosed",
+                "TestVerifC13ReproResolvedCheckpoint"], 1, shards=1, v=True),
         ],
     ),
     also=["C12"],
